@@ -12,6 +12,7 @@ code -> spec: the implementation's key relation is measured on pairs of objects 
               record against equality of the abstract terms
 """
 import collections
+import concurrent.futures
 import itertools
 import json
 import multiprocessing
@@ -27,6 +28,7 @@ from harness import common, dslgen as g, tlc
 from harness.drivers.C07 import has_unnamed_output
 
 PROCS = int(os.environ.get('VERIF_PROCS') or 8)
+CHUNK = 1500        # observations (two terms each) per TraceIdentity run
 FINDING_HASH = 'hash-based-equality'
 FINDING_TYPE = 'source-eq-ignores-type'
 CLAUSES = ('eq', 'eq_reversed', 'hash', 'dict', 'set', 'pickle', 'attribute_access', 'parser_cache', 'item_access',
@@ -477,26 +479,24 @@ def _show(p):
 
 
 def run_trace(chk, obs, procs):
-    parts = [obs[i::procs] for i in range(procs)]
-    index = [list(range(len(obs)))[i::procs] for i in range(procs)]
-    results = [None] * procs
+    nparts = max(procs, -(-len(obs) // CHUNK))
+    parts = [obs[i::nparts] for i in range(nparts)]
+    index = [list(range(len(obs)))[i::nparts] for i in range(nparts)]
 
     def run(k):
         path = common.write_json({'obs': parts[k]}, f'c08-obs-{k}.json')
-        results[k] = tlc.run('TraceIdentity', 'TraceIdentity.cfg', workers=1, env={'TRACE_FILE': path}, coverage=False,
-                             timeout=3000, heap='3g')
+        try:
+            return tlc.run('TraceIdentity', 'TraceIdentity.cfg', workers=1, env={'TRACE_FILE': path}, coverage=False,
+                           timeout=3000, heap='2g')
+        finally:
+            os.remove(path)
 
-    threads = [threading.Thread(target=run, args=(k,)) for k in range(procs) if parts[k]]
-    for t in threads:
-        t.start()
-    for t in threads:
-        t.join()
+    with concurrent.futures.ThreadPoolExecutor(max_workers=procs) as pool:
+        results = list(pool.map(run, range(nparts)))
     verdicts = {}
-    for k in range(procs):
+    for k in range(nparts):
         if not parts[k]:
             continue
-        if results[k] is None:
-            raise tlc.MachineryError('TraceIdentity run failed')
         orig, tlc.run = tlc.run, (lambda *a, _r=results[k], **kw: _r)
         try:
             chk.tlc('TraceIdentity', 'TraceIdentity.cfg')  # accounting of the finished run
